@@ -270,6 +270,31 @@ def run(F, rep):
         rep.ob("C04-D5", "%s claims an index with a single atomic read-modify-write" % name, len(ats) == 1 and ats[0] in ("fetch_sub", "fetch_add"),
                detail="atomic operations: %s" % ats, site="%s:%d" % (f.file, f.line_lo), key="C04-D5 | %s" % name)
 
+    # ------------------------------------------------------------ D7: the producer waits for the *tokens* of a round
+    # sync tokens are queued with size 0 (C05-T1), so a wait for "the round was taken" must look at the item count
+    nw = 0
+    for k in sorted(reach):
+        f = F.funcs[k]
+        if not k.startswith(pipeline.SQC):
+            continue
+        g = cfg_of(f)
+        ex = None
+        for h, body in g.loops():
+            if not any(is_call(f.blocks[b]["term"], r"std::thread::(functions::)?sleep$") for b in body):
+                continue
+            ex = ex or Exprs(f)
+            exits = [b for b in body if f.blocks[b]["term"]["k"] == "switch" and any(s not in body for s in g.succ[b])]
+            for b in exits:
+                e = strip_tags(ex.operand(f.blocks[b]["term"]["discr"]))
+                obs = [x[1].rsplit("::", 1)[-1] for x in walk(e) if isinstance(x, tuple) and x[0] == "call" and "memory_bounded_queue::MemoryBoundedQueue" in x[1]]
+                if not obs:
+                    continue
+                nw += 1
+                rep.ob("C04-D7", "%s waits until the queue holds no items (tokens have size 0, so byte counts cannot see them)" % k.rsplit("::", 1)[-1],
+                       all(o in ("len", "is_empty") for o in obs), detail="wait condition %s" % fmt(e), site=site_of(f, f.blocks[b]["term"]),
+                       key="C04-D7 | %s | wait observes item count" % k)
+    rep.floor("C04-D7", nw, 2, "producer-side wait loops (drain, sync_and_flush)")
+
     # ------------------------------------------------------------ D6
     ntok = 0
     for k in sorted(reach):
